@@ -16,6 +16,7 @@ package checks
 import (
 	"context"
 	"fmt"
+	"os"
 	"sort"
 	"strings"
 	"sync"
@@ -31,6 +32,9 @@ import (
 	kubeeventsmanager "github.com/flant/shell-operator/pkg/kube_events_manager"
 	kemtypes "github.com/flant/shell-operator/pkg/kube_events_manager/types"
 	metricstorage "github.com/flant/shell-operator/pkg/metric_storage"
+
+	"github.com/flant/shell-operator/pkg/hook/task_metadata"
+	"github.com/flant/shell-operator/pkg/task"
 
 	"verif/harness/vlib"
 )
@@ -77,13 +81,66 @@ func TestC02System(t *testing.T) {
 				sys.Settle(100)
 			}
 		}
-		rec := runKCase(c, kc, restart, steady)
+		var install, drive func(sys *vlib.Sys, rec *krecord)
+		if c.Index%8 == 5 {
+			// catalogue: the Synchronization contexts of a grouped binding G (an ungrouped Synchronization at the
+			// head is never combined) and two bindings A and B (B includes A's snapshot) are combined into one execution; the reader that fills A's `objects` is parked after its copy, an
+			// object matching A is created, the reader continues. `objects` of A and snapshots[A] of B's
+			// context belong to one execution and must be identical.
+			rel := "k0.sh"
+			kc = &kcase{Hooks: []khook{{Rel: rel, SnapCron: "10 3 1 1 *", Binds: []kbind{
+				{Hook: rel, Name: "G", SelShape: "names", Sel: vlib.KSel{Names: []string{"g"}}, Group: "g", OnSync: true, KeepFull: true},
+				{Hook: rel, Name: "A", SelShape: "all", OnSync: true, KeepFull: true},
+				{Hook: rel, Name: "B", SelShape: "labels", Sel: vlib.KSel{Labels: map[string]string{"sel": "x"}}, OnSync: true, KeepFull: true, Include: []string{"A"}},
+			}}},
+				Pre: []kop{{Op: "put", Ns: "ns1", Name: "a"}, {Op: "put", Ns: "ns2", Name: "b", Lbl: map[string]string{"sel": "x"}}},
+			}
+			restart = false
+			gate := (*vlib.Gate)(nil)
+			install = func(sys *vlib.Sys, rec *krecord) {
+				gate = vlib.NewGate()
+				sys.OnStop(gate.Release)
+				monA := ""
+				if h := sys.Op.HookManager.GetHook(rel); h != nil {
+					for _, kb := range h.Config.OnKubernetesEvents {
+						if kb.BindingName == "A" {
+							monA = kb.Monitor.Metadata.MonitorId
+						}
+					}
+				}
+				inHookRun := false
+				sys.Pts.On("q.handler.enter", func(ev vlib.PointEvent) {
+					tk, _ := ev.Args[1].(task.Task)
+					inHookRun = tk != nil && tk.GetType() == task_metadata.HookRun
+				})
+				sys.Pts.On("ri.snap.afterCopy", func(ev vlib.PointEvent) {
+					if inHookRun && monA != "" && ev.Args[0].(string) == monA {
+						gate.Park()
+					}
+				})
+			}
+			drive = func(sys *vlib.Sys, rec *krecord) {
+				if waitHit(sys, gate) {
+					rec.Armed["write-between-objects-read-and-included-snapshot-read"] = true
+					applyOps(rec.VC, []kop{{Op: "put", Ns: "ns1", Name: "between-reads"}}, "between the read for A's objects and the read for snapshots[A] of one execution", rec, nil, rec.KC)
+					synctest.Wait()
+				}
+				gate.Release()
+			}
+		}
+		rec := runKCaseR(c, kc, restart, install, drive, steady)
 		for a := range rec.Armed {
 			res.Count("phase_armed/"+a, 1)
 		}
 		if rec.Inconclusive != "" {
 			res.Inconclusive = rec.Inconclusive
 			return res
+		}
+		if os.Getenv("VERIF_DUMP") != "" {
+			for _, ex := range rec.Execs {
+				fmt.Fprintf(os.Stderr, "DUMP exec #%d %s q=%s status=%s\n%s\n", ex.Idx, ex.Hook, ex.Queue, ex.Status, vlib.JSON(ex.Contexts))
+			}
+			fmt.Fprintln(os.Stderr, rec.describe())
 		}
 		c02validate(&res, rec)
 		shapes := map[string]bool{}
